@@ -6,10 +6,15 @@
     translator checks, for each native-mode format in the source, that it is
     a single item or made of 1-byte items only (so alignment cannot occur),
     and the harness asserts the host is little-endian with 4-byte int.
-    Floats are carried as bit patterns.  [pack] returns [None] exactly where
-    CPython raises [struct.error]. *)
+    Floats are carried as bit patterns ([VF32]/[VF64]) or, when finite, as the dyadic
+    rational they denote ([VDy]); integers given to a float code are converted as
+    CPython does (int -> double, then double -> single for 'f').  [pack] returns
+    [None] where CPython raises [struct.error] - and also where it raises
+    OverflowError for a finite float too large for 'f' (PyLite fails closed there:
+    [struct_pack] answers [Unsupported] when a float argument could not be packed). *)
 From Coq Require Import String Ascii.
 From NX Require Export Bytes.
+From NX Require Import Float Rn53.
 Open Scope N_scope.
 
 Inductive endian := LE | BE.
@@ -115,7 +120,8 @@ Inductive value :=
   | VBool (b : bool)
   | VBytes (l : bytes)
   | VF32 (bits : N)
-  | VF64 (bits : N).
+  | VF64 (bits : N)
+  | VDy (num e : Z).               (* a finite float: num / 2^e *)
 
 Definition enc (e : endian) (k : nat) (n : N) : bytes :=
   match e with LE => le_enc k n | BE => be_enc k n end.
@@ -152,10 +158,27 @@ Definition pack_one (e : endian) (c : code) (v : value) : option bytes :=
              end
   | Cf => match v with
           | VF32 bits => if bits <? pow256 4 then Some (enc e 4 bits) else None
+          | VDy n x => option_map (fun b => enc e 4 (Z.to_N b)) (f32_encode n x)
+          | VInt _ | VBool _ =>
+              match int_of_value v with
+              | Some z =>
+                  (* float(z), then the double is narrowed to single *)
+                  match f64_of_int z with
+                  | Some _ => option_map (fun b => enc e 4 (Z.to_N b)) (f32_encode (rn53 z) 0)
+                  | None => None
+                  end
+              | None => None
+              end
           | _ => None
           end
   | Cd => match v with
           | VF64 bits => if bits <? pow256 8 then Some (enc e 8 bits) else None
+          | VDy n x => option_map (fun b => enc e 8 (Z.to_N b)) (f64_encode n x)
+          | VInt _ | VBool _ =>
+              match int_of_value v with
+              | Some z => option_map (fun b => enc e 8 (Z.to_N b)) (f64_of_int z)
+              | None => None
+              end
           | _ => None
           end
   | _ =>
